@@ -59,6 +59,11 @@ class FullWorld(object):
             self.sim.line_stall = tuple(plan['stall'])
         if plan.get('focus_stall'):
             self.sim.focus_stall = tuple(plan['focus_stall'])
+        if plan.get('deep_stalls'):
+            ds = {}
+            for (fn, rel, secs, hits) in plan['deep_stalls']:
+                ds.setdefault(fn, []).append([rel, secs, hits])
+            self.sim.deep_stalls = ds
         nk = dict(net or {})
         nk.setdefault('chunk_mode', plan.get('chunk_mode', 'whole'))
         self.net = SimNet(self.sim, **nk)
